@@ -546,6 +546,93 @@ def cpe_compare(case, impl, model):
 
 
 # ------------------------------------------------------------------------------------------------
+# cpesem: one self-recursive function (self calls in any position, prints), called with literals
+# ------------------------------------------------------------------------------------------------
+
+def cpesem_case(rng):
+    n = rng.range(2, 4)
+    ps = [f"p{j}" for j in range(n)]
+    consts = [rng.range(0, 6) for _ in range(n)]
+    ncalls = rng.range(1, 3)
+    calls = []
+    for _ in range(ncalls):
+        calls.append([str(rng.range(1, 3))] + [str(consts[j]) if rng.chance(3, 4) else str(rng.range(0, 9))
+                                                for j in range(1, n)])
+    mir, toks = ["bin x800 sub p0 1"], ["B", "x800", "sub", "p0", "1"]
+    acc, loc = "0", [0]
+    scope = []
+    for sidx in range(rng.range(1, 3)):
+        k = rng.below(10)
+        if k < 6:          # self call
+            rest = ps[1:]
+            m = rng.below(10)
+            if m < 3 and len(rest) >= 2:
+                rest = rng.shuffle(rest)
+            elif m < 8:
+                rest = [(str(consts[j + 1]) if rng.chance(1, 3) else r) for j, r in enumerate(rest)]
+            else:
+                rest = [rng.pick(ps[1:] + scope + [str(rng.range(0, 5))]) for _ in rest]
+            args = ["x800"] + rest
+            rc = f"x{810 + sidx}"
+            mir.append(f"call f1 {n} " + " ".join(args) + f" {rc}")
+            toks += ["C", rc, str(n)] + args
+            nx = f"x{820 + sidx}"
+            mir.append(f"bin {nx} add {acc} {rc}")
+            toks += ["B", nx, "add", acc, rc]
+            acc = nx
+            scope.append(rc)
+        elif k < 8:        # print
+            es = ["p0"] + [rng.pick(ps[1:] + scope) for _ in range(rng.range(0, 2))]
+            mir.append(f"call print {len(es)} " + " ".join(es) + " _")
+            toks += ["P", str(len(es))] + es
+        else:              # arithmetic on a parameter
+            nx = f"x{830 + sidx}"
+            a, b = rng.pick(ps[1:] + scope + ["3"]), rng.pick(ps[1:] + ["2"])
+            mir.append(f"bin {nx} {rng.pick(['add', 'mul', 'sub'])} {a} {b}")
+            toks += ["B", nx, mir[-1].split(" ")[2], a, b]
+            nx2 = f"x{840 + sidx}"
+            mir.append(f"bin {nx2} add {acc} {nx}")
+            toks += ["B", nx2, "add", acc, nx]
+            acc = nx2
+            scope.append(nx)
+    basev = rng.pick(ps[1:]) if rng.chance(1, 3) else str(rng.range(0, 3))
+    f1 = (f"fn f1 {n} bin x801 le p0 0 if x801 {{ }} {{ " + " ".join(mir) + f" }} 1 x802 {basev} {acc} ret x802 end")
+    body = ["B", "x801", "le", "p0", "0", "I", "x801", "R", basev] + toks + ["R", acc]
+    f0 = []
+    for i, c in enumerate(calls):
+        f0.append(f"call f1 {n} " + " ".join(c) + f" c{i}")
+        f0.append(f"call print 1 c{i} _")
+    prog = "fn f0 0 " + " ".join(f0) + " ret 0 end " + f1
+    model = f"{n} {len(calls)} " + " ".join(" ".join(c) for c in calls) + " " + " ".join(body)
+    return {"kind": "cpesem", "line": f"cpesem | | {prog} ## {model}"}
+
+
+def cpesem_compare(case, impl, model):
+    if not impl.startswith("prog "):
+        return f"impl={impl[:300]}", None
+    parts = impl.split(" || ")
+    prog, verdict, per = parts[0], parts[1], parts[2]
+    toks = prog.split(" ")
+    kept = None
+    for i, t in enumerate(toks):
+        if t == "fn" and toks[i + 1] == "f1":
+            kept = toks[i + 3:toks.index("]", i)]
+    mt = model.split(" ")
+    if mt[0] != "ok" or len(mt) != 4:
+        return f"model={model[:300]}", None
+    states = mt[1].split(",")
+    want = [f"p{i}" for i, st in enumerate(states) if st == "X"]
+    tie = None
+    b, a = per.split("/")
+    if kept != want:
+        tie = f"implementation keeps {kept}, model decides {mt[1]} (keeps {want})"
+    elif "timeout" not in b and mt[2] != "none" and (b != mt[2] or a != mt[3]):
+        tie = f"outputs differ: impl before/after={b[:120]} / {a[:120]} model before/after={mt[2][:120]} / {mt[3][:120]}"
+    oracle = verdict if verdict.startswith("diff") else None
+    return tie, oracle
+
+
+# ------------------------------------------------------------------------------------------------
 # end to end: source programs with expected output computed here
 # ------------------------------------------------------------------------------------------------
 
@@ -747,25 +834,184 @@ def e2e_constparam(rng):
     return {"family": "const-param", "src": src, "expect": [str(expect), str(expect)], "sig_f1": False, "sig_f2": False}
 
 
+def e2e_iface(rng):
+    """Interfaces with bounded generics, function and method references, closures capturing both."""
+    n, k = rng.range(1, 6), rng.range(1, 9)
+    a, b = rng.range(1, 9), rng.range(1, 9)
+    w1, h1, w2, h2 = (rng.range(1, 9) for _ in range(4))
+    c = rng.range(-3, 9)
+    pick = (w1, h1) if w1 * h1 >= w2 * h2 else (w2, h2)
+    field = rng.pick(["w", "h"])
+    g = w32(w32((c + 2 * k) * n) + n * n)
+    src = ("interface HasArea { method area(): int }\n"
+           "class Sq(val s: int) : HasArea { method area(): int = this.s * this.s }\n"
+           "class Re(val w: int, val h: int) : HasArea { method area(): int = this.w * this.h }\n"
+           "class Wrap<T: HasArea>(val inner: T, val bonus: int) : HasArea { method area(): int = this.inner.area() + this.bonus }\n"
+           "class Main {\n"
+           "  function <T: HasArea> total(a: T, b: T): int = a.area() + b.area()\n"
+           "  function <T: HasArea> pick(a: T, b: T): T = if a.area() >= b.area() { a } else { b }\n"
+           "  function twice(f: (int) -> int, x: int): int = f(f(x))\n"
+           f"  function addK(x: int): int = x + {k}\n"
+           "  function main(): unit = {\n"
+           f"    let n = \"{n}\".toInt();\n    let f = Main.addK;\n    let sq = Sq.init(n);\n    let m = sq.area;\n"
+           "    let g = (x: int) -> Main.twice(f, x) * n + m();\n"
+           f"    let _ = Process.println(Str.fromInt(Main.total(Sq.init({a}), Sq.init({b}))));\n"
+           f"    let _ = Process.println(Str.fromInt(Main.pick(Re.init({w1}, {h1}), Re.init({w2}, {h2})).{field}));\n"
+           f"    let _ = Process.println(Str.fromInt(Main.total(Wrap.init(Re.init({w1}, {h1}), {a}), Wrap.init(Re.init({w2}, {h2}), n))));\n"
+           f"    let _ = Process.println(Str.fromInt(g({c})));\n  }}\n}}\n")
+    exp = [str(a * a + b * b), str(pick[0] if field == "w" else pick[1]), str(w1 * h1 + a + w2 * h2 + n), str(g)]
+    return {"family": "interface-closure", "src": src, "expect": exp, "std": False}
+
+
+def e2e_std(rng):
+    """std.list / std.option through generic code and closures."""
+    xs = [rng.range(-4, 12) for _ in range(rng.range(1, 5))]
+    n = rng.range(1, 5)
+    t = rng.range(-2, 8)
+    val = f"List.of({xs[-1]})"
+    for x in reversed(xs[:-1]):
+        val += f".cons({x})"
+    mapped = [w32(x * n) for x in xs]
+    found = next((x for x in xs if x > t), None)
+    src = ("import { List } from std.list;\nimport { Option } from std.option;\n"
+           "class Main {\n  function main(): unit = {\n"
+           f"    let n = \"{n}\".toInt();\n    let l = {val};\n"
+           "    let _ = Process.println(Str.fromInt(l.map((x) -> x * n).fold((a, x) -> a + x, 0)));\n"
+           f"    let _ = Process.println(Str.fromInt(l.filter((x) -> x > {t}).length()));\n"
+           "    let _ = Process.println(Str.fromInt(l.reverse().first().valueMap(0 - 1, (x) -> x + 100)));\n"
+           f"    let _ = Process.println(Str.fromInt(l.find((x) -> x > {t}).map((x) -> x * 2).valueMap(0 - 7, (x) -> x)));\n"
+           "    let _ = Process.println(Str.fromInt(l.append(l.reverse()).length() + l.foldRight((x, a) -> a * 2 + x, 0)));\n"
+           "  }\n}\n")
+    fr = 0
+    for x in reversed(xs):
+        fr = w32(fr * 2 + x)
+    exp = [str(w32(sum(mapped))), str(len([x for x in xs if x > t])), str(xs[-1] + 100),
+           str(found * 2 if found is not None else -7), str(w32(2 * len(xs) + fr))]
+    return {"family": "std-list-option", "src": src, "expect": exp, "std": True}
+
+
+def e2e_effects(rng):
+    """Evaluation order and short-circuiting: expressions over effectful calls (each prints its
+    tag), with compile-time constant and run-time operands on either side of && / ||."""
+    out = []
+    ctr = [0]
+
+    def gen_b(d):
+        k = rng.below(12)
+        if d <= 0 or k < 2:
+            v = rng.chance(1, 2)
+            return ("lit", v)
+        if k < 5:
+            ctr[0] += 1
+            return ("tb", ctr[0], rng.chance(1, 2))
+        if k < 8:
+            return ("and", gen_b(d - 1), gen_b(d - 1))
+        if k < 10:
+            return ("or", gen_b(d - 1), gen_b(d - 1))
+        if k < 11:
+            return ("not", gen_b(d - 1))
+        return ("lt", gen_i(d - 1), gen_i(d - 1))
+
+    def gen_i(d):
+        k = rng.below(10)
+        if d <= 0 or k < 2:
+            return ("lit", rng.range(0, 9))
+        if k < 5:
+            ctr[0] += 1
+            return ("ti", ctr[0], rng.range(0, 9))
+        if k < 7:
+            return ("add", gen_i(d - 1), gen_i(d - 1))
+        if k < 8:
+            return ("mul", gen_i(d - 1), gen_i(d - 1))
+        return ("if", gen_b(d - 1), gen_i(d - 1), gen_i(d - 1))
+
+    def src(e):
+        t = e[0]
+        if t == "lit":
+            return ("true" if e[1] else "false") if isinstance(e[1], bool) else str(e[1])
+        if t == "tb":
+            return f"Main.tb({e[1]}, {'true' if e[2] else 'false'})"
+        if t == "ti":
+            return f"Main.ti({e[1]}, {e[2]})"
+        if t == "and":
+            return f"({src(e[1])} && {src(e[2])})"
+        if t == "or":
+            return f"({src(e[1])} || {src(e[2])})"
+        if t == "not":
+            return f"!({src(e[1])})"
+        if t == "lt":
+            return f"({src(e[1])} < {src(e[2])})"
+        if t == "add":
+            return f"({src(e[1])} + {src(e[2])})"
+        if t == "mul":
+            return f"({src(e[1])} * {src(e[2])})"
+        return f"(if {src(e[1])} {{ {src(e[2])} }} else {{ {src(e[3])} }})"
+
+    def ev(e):
+        t = e[0]
+        if t == "lit":
+            return e[1]
+        if t in ("tb", "ti"):
+            out.append(str(e[1]))
+            return e[2]
+        if t == "and":
+            return ev(e[1]) and ev(e[2])
+        if t == "or":
+            return ev(e[1]) or ev(e[2])
+        if t == "not":
+            return not ev(e[1])
+        if t == "lt":
+            a = ev(e[1]); b = ev(e[2])
+            return a < b
+        if t == "add":
+            a = ev(e[1]); b = ev(e[2])
+            return w32(a + b)
+        if t == "mul":
+            a = ev(e[1]); b = ev(e[2])
+            return w32(a * b)
+        return ev(e[2]) if ev(e[1]) else ev(e[3])
+    stmts = []
+    for _ in range(rng.range(2, 4)):
+        if rng.chance(1, 2):
+            e = gen_b(3)
+            stmts.append(f"    let _ = if {src(e)} {{ Process.println(\"T\") }} else {{ Process.println(\"F\") }};")
+            out.append("T" if ev(e) else "F")
+        else:
+            e = gen_i(3)
+            stmts.append(f"    let _ = Process.println(Str.fromInt({src(e)}));")
+            out.append(str(ev(e)))
+    srct = ("class Main {\n  function tb(k: int, v: bool): bool = { let _ = Process.println(Str.fromInt(k)); v }\n"
+            "  function ti(k: int, v: int): int = { let _ = Process.println(Str.fromInt(k)); v }\n"
+            "  function main(): unit = {\n" + "\n".join(stmts) + "\n  }\n}\n")
+    return {"family": "effects-order", "src": srct, "expect": out, "std": False}
+
+
 def e2e_case(rng):
     k = rng.below(100)
-    if k < 15:
-        return e2e_nat(rng, False)
-    if k < 25:
-        return e2e_mutual(rng, False)
-    if k < 40:
+    if k < 14:
+        return e2e_effects(rng)
+    k = rng.below(100)
+    if k < 12:
+        return e2e_nat(rng, rng.chance(1, 2))
+    if k < 20:
+        return e2e_mutual(rng, rng.chance(1, 2))
+    if k < 32:
         return e2e_option(rng)
-    if k < 55:
-        return e2e_tailperm(rng, False)
-    if k < 75:
+    if k < 46:
+        return e2e_tailperm(rng, rng.chance(1, 2))
+    if k < 60:
         return e2e_hanoi(rng)
-    if k < 90:
+    if k < 70:
         return e2e_list(rng)
-    return e2e_constparam(rng)
+    if k < 78:
+        return e2e_constparam(rng)
+    if k < 90:
+        return e2e_iface(rng)
+    return e2e_std(rng)
 
 
 def run_e2e(ctx, cases, label, stats):
-    progs = [{"sources": {"Main": c["src"]}, "entry": "Main", "std": False, "ts": True, "timeout_ms": 10000}
+    progs = [{"sources": {"Main": c["src"]}, "entry": "Main", "std": bool(c.get("std")), "ts": True, "timeout_ms": 10000}
              for c in cases]
     try:
         res = common.exec_programs(progs)
@@ -775,6 +1021,11 @@ def run_e2e(ctx, cases, label, stats):
     for c, r in zip(cases, res):
         stats["e2e"] += 1
         stats["families"][c["family"]] = stats["families"].get(c["family"], 0) + 1
+        if r.get("compile") == "panic" and "unknown type: failed to find name" in (r.get("msg") or ""):
+            # C03-F5 (owned by C03): a struct used only as payload of an enum variant is eliminated while
+            # the variant's sub-struct type still refers to it; attributed, not a C01 verdict
+            stats["attributed_C03_F5"] = stats.get("attributed_C03_F5", 0) + 1
+            continue
         if r.get("compile") != "ok":
             ctx.violation(f"generated {c['family']} program is rejected or crashes the compiler: {r.get('compile')}",
                           {"kind": "e2e", "label": label, "source": c["src"], "compile": r.get("compile"), "msg": (r.get("msg") or "")[:1500]},
@@ -823,6 +1074,10 @@ def check_protocol_cases(ctx, cases, label, stats):
             tie, oracle = tailrec_compare(c, a, m)
             if " while " in a:
                 stats["tailrec_rewritten"] += 1
+        elif c["kind"] == "cpesem":
+            tie, oracle = cpesem_compare(c, a, m)
+            if m.startswith("ok") and any(x in ("U",) or x.startswith("C") for x in m.split(" ")[1].split(",")):
+                stats["cpesem_eliminated"] += 1
         else:
             tie, oracle = cpe_compare(c, a, m)
         payload = {"protocol": c["kind"], "label": label, "ops": [c["line"]], "impl": a, "model": m}
@@ -860,7 +1115,7 @@ PROBE_F2 = ("class Main {\n  function swap(a: int, b: int, n: int): int = if n =
 def run(ctx):
     res = common.proof_gate(ctx)
     rng = ctx.rng
-    stats = {"search_rng": None, "layout": 0, "tailrec": 0, "cpe": 0, "e2e": 0, "e2e_ok": 0, "known_hits": 0, "families": {},
+    stats = {"search_rng": None, "layout": 0, "tailrec": 0, "cpe": 0, "cpesem": 0, "cpesem_eliminated": 0, "e2e": 0, "e2e_ok": 0, "known_hits": 0, "families": {},
              "layout_unboxed": 0, "layout_conflating": 0, "tailrec_rewritten": 0, "no_node": False}
     try:
         common.build_exec()
@@ -881,6 +1136,7 @@ def run(ctx):
     cases = [layout_case(rng.fork()) for _ in range(n_layout)]
     cases += [tailrec_case(rng.fork(), allow_backward=(i % 2 == 0)) for i in range(n_tail)]
     cases += [cpe_case(rng.fork(), rotate_bias=4) for _ in range(n_cpe)]
+    cases += [cpesem_case(rng.fork()) for _ in range(n_cpe)]
     for i in range(0, len(cases), 400):
         check_protocol_cases(ctx, cases[i:i + 400], f"generated seed={ctx.seed}", stats)
         if ctx.violations:
@@ -898,7 +1154,7 @@ def run(ctx):
             run_e2e(ctx, e2e[i:i + 60], f"generated seed={ctx.seed}", stats)
             if ctx.violations:
                 break
-    total = stats["layout"] + stats["tailrec"] + stats["cpe"] + stats["e2e"]
+    total = stats["layout"] + stats["tailrec"] + stats["cpe"] + stats["cpesem"] + stats["e2e"]
     ctx.cov.update({
         "evaluations": total,
         "distinct_nontrivial": stats["layout_unboxed"] + stats["tailrec_rewritten"] + stats["e2e_ok"],
@@ -909,7 +1165,7 @@ def run(ctx):
                 "non-trivial = layout case with at least one Unboxed variant + tailrec case that was rewritten into a loop + "
                 "e2e program whose wasm output matched",
         "samples": [cases[0]["line"][:300] if cases else "", cases[n_layout]["line"][:300] if len(cases) > n_layout else ""],
-        "traces_validated_against_impl": stats["layout"] + stats["tailrec"] + stats["cpe"],
+        "traces_validated_against_impl": stats["layout"] + stats["tailrec"] + stats["cpe"] + stats["cpesem"],
         "histogram": {k: v for k, v in stats.items() if k != "search_rng"},
         "pending": ["tailrec_equiv over the full MIR statement list (return-collector plumbing of try_rewrite…): only the "
                     "if-else-tree kernel is proved", "semantic theorem for constant-parameter elimination (only the decision "
